@@ -182,6 +182,27 @@ Fixpoint pmatch (p : bytes) : bytes -> bool :=
          end)
     else fun s => match s with d :: s' => if Ascii.eqb c d then pmatch p' s' else false | [] => false end
   end.
+(* path.Match with the escape: a backslash makes the next byte literal (the line parser leaves a
+   backslash in a name only in front of an asterisk); used by removeFiles, whose pattern is the
+   parsed name itself.  A pattern ending in a backslash is malformed (ErrBadPattern: no match). *)
+Fixpoint pmatch_esc (p : bytes) : bytes -> bool :=
+  match p with
+  | [] => fun s => match s with [] => true | _ => false end
+  | c :: p' =>
+    if Ascii.eqb c c_star then
+      (fix star (s : bytes) : bool :=
+         if pmatch_esc p' s then true else
+         match s with
+         | [] => false
+         | d :: s' => if Ascii.eqb d c_sl then false else star s'
+         end)
+    else if Ascii.eqb c c_bsl then
+      match p' with
+      | x :: p'' => fun s => match s with d :: s' => if Ascii.eqb x d then pmatch_esc p'' s' else false | [] => false end
+      | [] => fun _ => false
+      end
+    else fun s => match s with d :: s' => if Ascii.eqb c d then pmatch_esc p' s' else false | [] => false end
+  end.
 Definition root_path : bytes := [c_sl].
 (* filepath.Glob(path.Join(root, pattern)): entries of existing directories; never the root *)
 Definition glob (t : tree) (pat : bytes) : list bytes :=
@@ -214,7 +235,7 @@ Definition add_files (t : tree) (li : lineinfo) (m : emap) : res emap :=
 
 (* removeFiles *)
 Definition del_matching (pat : bytes) (m : emap) : emap :=
-  filter (fun kv => negb (pmatch pat (fst kv))) m.
+  filter (fun kv => negb (pmatch_esc pat (fst kv))) m.
 Definition remove_files (name : bytes) (wild : bool) (m : emap) : res emap :=
   if wild then Ok (del_matching name m)       (* path.Match of the pattern against the member names *)
   else if mem name m then Ok (del name m) else Failed.
@@ -296,7 +317,7 @@ Definition dev_value (v : bytes) : bool :=
   | c :: r =>
     (Ascii.eqb c (nb 99) || Ascii.eqb c (nb 98)) &&
     match split c_colon r with
-    | [a; b] => uint_ok a 4294967296 && uint_ok b 256
+    | [a; b] => uint_ok a 4294967296 && uint_ok b 4294967296
     | _ => false
     end
   end.
@@ -314,7 +335,7 @@ Definition opt_step (ty : bytes) (s : ost) (str : bytes) : ost :=
   | (key, Some val) =>
     let forbidden l := memb ty l in
     if feq key (bs "mod") then
-      if forbidden [t_symlink; t_omit] then os_fail s
+      if forbidden [t_symlink; t_tbd; t_omit] then os_fail s
       else if os_perm s then os_fail s
       else match mod_value val with
            | VOk => MkOS (os_targ s) (os_dev s) (os_skip s) true (os_err s) (os_ood s)
@@ -322,16 +343,16 @@ Definition opt_step (ty : bytes) (s : ost) (str : bytes) : ost :=
            | VOod => os_outside s
            end
     else if feq key (bs "gid") || feq key (bs "uid") then
-      if forbidden [t_symlink; t_omit] then os_fail s
+      if forbidden [t_symlink; t_tbd; t_omit] then os_fail s
       else match uid_value val with VOk => s | VErr => os_fail s | VOod => os_outside s end
     else if feq key (bs "src") then os_outside s
     else if feq key (bs "dev") then
-      if forbidden [t_file; t_dir; t_symlink; t_omit] then os_fail s
+      if forbidden [t_file; t_dir; t_symlink; t_tbd; t_omit] then os_fail s
       else if os_dev s then os_fail s
       else if dev_value val then MkOS (os_targ s) true (os_skip s) (os_perm s) (os_err s) (os_ood s)
       else os_fail s
     else if feq key (bs "targ") then
-      if forbidden [t_file; t_dir; t_node; t_omit] then os_fail s
+      if forbidden [t_file; t_dir; t_node; t_tbd; t_omit] then os_fail s
       else let '(wild, err) := parse_source val in
            if err || wild then os_fail s
            else MkOS true (os_dev s) (os_skip s) (os_perm s) (os_err s) (os_ood s)
